@@ -6,6 +6,7 @@ import (
 	"runtime"
 	"runtime/metrics"
 	"sync/atomic"
+	"syscall"
 	"time"
 )
 
@@ -55,4 +56,16 @@ func AllocBytes() uint64 {
 	var ms runtime.MemStats
 	runtime.ReadMemStats(&ms)
 	return ms.TotalAlloc
+}
+
+// ThreadCPU returns the CPU time (user+system) consumed so far by the calling OS thread. The
+// caller must have locked its goroutine to the thread (runtime.LockOSThread). Unlike wall time it
+// does not grow while the thread waits for a busy machine.
+func ThreadCPU() time.Duration {
+	var ru syscall.Rusage
+	const rusageThread = 1 // RUSAGE_THREAD (Linux)
+	if err := syscall.Getrusage(rusageThread, &ru); err != nil {
+		return -1
+	}
+	return time.Duration(ru.Utime.Nano() + ru.Stime.Nano())
 }
